@@ -372,10 +372,44 @@ theorem handleDateTime_ext (cu : Culture) (c : Char) (rest : Text) (st st' : CSt
     rw [if_neg c17] at h
     exact handleDefault_ext _ _ _ _ h
 
+theorem handleAnnualDay_ext (c : Char) (rest : Text) (st st' : CSt) (k : Nat)
+    (h : handleAnnualDay c rest st = .ok (st', k)) : Ext st st' := by
+  unfold handleAnnualDay at h
+  cases h1 : repeatCount c rest 2 with
+  | error e => rw [h1] at h; cases h
+  | ok n =>
+    rw [h1] at h; dsimp only at h
+    cases h2 : addField (addStep st (.num .dayOfMonth .dayOfMonth n 2 1 99)) F.dayOfMonth with
+    | error e => rw [h2] at h; cases h
+    | ok st1 =>
+      rw [h2] at h; injection h with h; injection h with h _
+      rw [← h]
+      exact ext_step_field st st1 _ _ h2 ⟨by simp [dtStepWF], fun h => absurd h (by decide), fun _ => by simp [setsSlot],
+        fun h => absurd h (by decide)⟩
+
+theorem handleAnnual_ext (cu : Culture) (c : Char) (rest : Text) (st st' : CSt) (k : Nat)
+    (h : handleAnnual cu c rest st = .ok (st', k)) : Ext st st' := by
+  unfold handleAnnual at h
+  cases hcm : handleCommon c rest st with
+  | some r => rw [hcm] at h; dsimp only at h; rw [h] at hcm; exact handleCommon_ext c rest st st' k hcm
+  | none =>
+    rw [hcm] at h; dsimp only at h
+    by_cases c0 : c = '/'
+    · rw [if_pos c0] at h; injection h with h; injection h with h _; rw [← h]; exact ext_addStep st _ rfl
+    rw [if_neg c0] at h
+    by_cases c1 : c = 'M'
+    · rw [if_pos c1] at h; exact handleMonthOrDay_ext _ _ _ _ _ _ h
+    rw [if_neg c1] at h
+    by_cases c2 : c = 'd'
+    · rw [if_pos c2] at h; exact handleAnnualDay_ext _ _ _ _ _ h
+    rw [if_neg c2] at h
+    exact handleDefault_ext _ _ _ _ h
+
 /-- the types whose handler tables produce date / time steps with month and day fields -/
 def isDateLike : PType → Bool
   | .date => true
   | .datetime _ => true
+  | .annual _ _ => true
   | _ => false
 
 theorem compileLoop_inv (ty : PType) (hty : isDateLike ty = true) (cu : Culture) : ∀ (fuel : Nat) (text : Text) (st st' : CSt),
@@ -405,6 +439,8 @@ theorem compileLoop_inv (ty : PType) (hty : isDateLike ty = true) (cu : Culture)
           | date => exact handleDate_ext cu c rest st st1 k hh
           | offset => cases hty
           | datetime tm => exact handleDateTime_ext cu c rest st st1 k hh
+          | annual tm td => exact handleAnnual_ext cu c rest st st1 k hh
+          | duration => cases hty
         exact ih _ st1 st' h (inv_ext st st1 hs g)
 
 theorem compileCustom_wf (ty : PType) (hty : isDateLike ty = true) (cu : Culture) (text : Text) (c : Compiled)
@@ -490,6 +526,209 @@ theorem datetime_success_valid (tm : Tmpl) (htm : TmplOK tm) (cu : Culture) (hcu
       · exact htm
     · exact htm
   exact parseCompiled_datetime_valid _ htm' c h1 h2 h3 l v h
+
+/-! ## AnnualDate -/
+
+theorem compileAnnual_wf (tm td : Int) (cu : Culture) (hcu : cu.monthHeadsEmpty = true) (ptext : Text) (p : Pat)
+    (h : compileAnnual tm td cu ptext = .ok p) : DtWF p := by
+  unfold compileAnnual at h
+  split at h
+  · cases h
+  · split at h
+    · exact steppedOf_wf (.annual tm td) rfl _ invariantCulture_monthHeadsEmpty _ p h
+    · cases h
+  · exact steppedOf_wf (.annual tm td) rfl _ hcu _ p h
+
+/-- `_AnnualDateParseBucket.calculate_value`: a success is a month 1 … 12 and a day of that month (leap year 2000) -/
+theorem annualValue_valid (tm td : Int) (ht : 1 ≤ tm ∧ 1 ≤ td) (used : Nat) (b : Bucket) (fm fd ft : Bool)
+    (hb : DtOK fm fd ft b)
+    (s1 : hasAny used F.monthNum = true → fm = true) (s2 : hasAny used F.dayOfMonth = true → fd = true)
+    (s3 : hasAny used F.monthText = true → ft = true)
+    (m d : Int) (h : annualValue tm td used b = some (m, d)) :
+    1 ≤ m ∧ m ≤ 12 ∧ 1 ≤ d ∧ d ≤ daysInMonth 2000 m := by
+  unfold annualValue at h
+  cases hmo : determineMonth tm used b with
+  | none => rw [hmo] at h; cases h
+  | some m' =>
+    rw [hmo] at h; dsimp only at h
+    have hmr : 1 ≤ m' ∧ m' ≤ 12 := by
+      unfold determineMonth at hmo
+      dsimp only at hmo
+      split at hmo
+      · cases hmo
+      · rename_i mm hmm
+        split at hmo
+        · cases hmo
+        · injection hmo with hmo
+          subst hmo
+          refine ⟨?_, by omega⟩
+          split at hmm
+          · rename_i hp
+            injection hmm with hmm; rw [← hmm]
+            exact hb.mo (s1 (by
+              unfold hasAny
+              have : used &&& F.monthNum = (used &&& (F.monthNum ||| F.monthText)) &&& F.monthNum := by
+                rw [Nat.and_assoc]; rfl
+              rw [this, hp]; decide))
+          · split at hmm
+            · rename_i hp
+              injection hmm with hmm; rw [← hmm]
+              exact hb.mt (s3 (by
+                unfold hasAny
+                have : used &&& F.monthText = (used &&& (F.monthNum ||| F.monthText)) &&& F.monthText := by
+                  rw [Nat.and_assoc]; rfl
+                rw [this, hp]; decide))
+            · split at hmm
+              · rename_i hp
+                split at hmm
+                · cases hmm
+                · injection hmm with hmm; rw [← hmm]
+                  exact hb.mo (s1 (by
+                    unfold hasAny
+                    have : used &&& F.monthNum = (used &&& (F.monthNum ||| F.monthText)) &&& F.monthNum := by
+                      rw [Nat.and_assoc]; rfl
+                    rw [this, hp]; decide))
+              · injection hmm with hmm; rw [← hmm]; exact ht.1
+    generalize hdd : (if hasAny used F.dayOfMonth = true then b .dayOfMonth else td) = dd at h
+    have hd1 : 1 ≤ dd := by
+      rw [← hdd]; split
+      · rename_i hd; exact hb.dy (s2 hd)
+      · exact ht.2
+    split at h
+    · cases h
+    · injection h with h; injection h with e1 e2
+      subst e1; subst e2
+      exact ⟨hmr.1, hmr.2, hd1, by omega⟩
+
+/-- **success_value_valid** for AnnualDate: whatever pattern text was accepted, whatever template value: a successful
+    parse of any text carries a month 1 … 12 and a day that month has (in a leap year) -/
+theorem annual_success_valid (tm td : Int) (ht : 1 ≤ tm ∧ 1 ≤ td) (cu : Culture) (hcu : cu.monthHeadsEmpty = true)
+    (ptext : Text) (p : Pat) (hp : compileAnnual tm td cu ptext = .ok p) (l : Text) (v : List Int)
+    (h : parsePat (.annual tm td) l p = .ok (some v)) :
+    ∃ m d, v = [m, d] ∧ 1 ≤ m ∧ m ≤ 12 ∧ 1 ≤ d ∧ d ≤ daysInMonth 2000 m := by
+  obtain ⟨c, rfl, hc, hw, hs⟩ := compileAnnual_wf tm td cu hcu ptext p hp
+  simp only [parsePat] at h
+  unfold parseCompiled at h
+  split at h
+  · cases h
+  · cases hps : parseSteps c.cu c.steps l (bucket0 (.annual tm td)) with
+    | error e => rw [hps] at h; cases h
+    | ok o =>
+      rw [hps] at h
+      cases o with
+      | none => cases h
+      | some q =>
+        obtain ⟨b, rest⟩ := q
+        dsimp only at h
+        have hb := parseSteps_dt_ok c.cu hc c.steps l _ b rest false false false hw dateBucket0_ok hps
+        obtain ⟨s1, s2, s3⟩ := fieldsSound_flags c.used c.steps hs
+        unfold bucketValue at h
+        dsimp only at h
+        cases hv : annualValue tm td c.used b with
+        | none => rw [hv] at h; cases h
+        | some w =>
+          obtain ⟨m, d⟩ := w
+          rw [hv] at h
+          simp only [Option.map] at h
+          split at h
+          · injection h with h; injection h with h
+            exact ⟨m, d, h.symm, annualValue_valid tm td ht c.used b _ _ _ hb s1 s2 s3 m d hv⟩
+          · cases h
+
+/-! ## Duration -/
+
+/-- `_DurationParseBucket.calculate_value`: a success is a Duration inside the type's range -/
+theorem durationValue_valid (b : Bucket) (fd n : Int) (h : durationValue b = .ok (some (fd, n))) :
+    -1073741824 ≤ fd ∧ fd ≤ 1073741823 ∧ 0 ≤ n ∧ n < 86400000000000 := by
+  unfold durationValue at h
+  dsimp only at h
+  generalize (if b .sign = 1 then -(b .dayOfMonth * NPD + b .hours24 * NPH + b .minutes * NPMin + b .seconds * NPS + b .fraction)
+    else b .dayOfMonth * NPD + b .hours24 * NPH + b .minutes * NPMin + b .seconds * NPS + b .fraction) = x at h
+  by_cases hx : x < DUR_MIN_NANOS ∨ x > DUR_MAX_NANOS
+  · rw [if_pos hx] at h; cases h
+  · rw [if_neg hx, durFromNanos_ok x (by omega) (by omega)] at h
+    injection h with h; injection h with h; injection h with e1 e2
+    unfold DUR_MIN_NANOS DUR_MAX_NANOS NPD at hx
+    unfold NPD at e1 e2
+    omega
+
+theorem compileDuration_patOK (cu : Culture) (ptext : Text) (p : Pat) (h : compileDuration cu ptext = .ok p) :
+    patOK p = true := by
+  unfold compileDuration at h
+  split at h
+  · cases h
+  · repeat' (first | exact steppedOf_patOK .duration rfl _ _ p h | cases h | split at h)
+  · exact steppedOf_patOK .duration rfl _ _ p h
+
+theorem compileAnnual_patOK (tm td : Int) (cu : Culture) (ptext : Text) (p : Pat) (h : compileAnnual tm td cu ptext = .ok p) :
+    patOK p = true := by
+  unfold compileAnnual at h
+  split at h
+  · cases h
+  · repeat' (first | exact steppedOf_patOK (.annual tm td) rfl _ _ p h | cases h | split at h)
+  · exact steppedOf_patOK (.annual tm td) rfl _ _ p h
+
+/-- **parse_total** for AnnualDate and Duration patterns: whatever pattern text was accepted, in whatever culture
+    record, parsing any text returns a result value (a success or a failure), never an exception -/
+theorem annual_parse_total (tm td : Int) (cu : Culture) (ptext : Text) (p : Pat) (h : compileAnnual tm td cu ptext = .ok p)
+    (l : Text) : ∃ r, parsePat (.annual tm td) l p = .ok r :=
+  parsePat_total _ l p (compileAnnual_patOK tm td cu ptext p h)
+
+theorem duration_parse_total (cu : Culture) (ptext : Text) (p : Pat) (h : compileDuration cu ptext = .ok p) (l : Text) :
+    ∃ r, parsePat .duration l p = .ok r :=
+  parsePat_total _ l p (compileDuration_patOK cu ptext p h)
+
+/-- **success_value_valid** for Duration: every pattern object, whatever its steps: a success is a Duration between
+    `Duration.min_value` and `Duration.max_value` with a nanosecond of day inside the day -/
+theorem parseCompiled_duration_valid (c : Compiled) (l : Text) (v : List Int)
+    (h : parseCompiled .duration c l = .ok (some v)) :
+    ∃ fd n, v = [fd, n] ∧ -1073741824 ≤ fd ∧ fd ≤ 1073741823 ∧ 0 ≤ n ∧ n < 86400000000000 := by
+  unfold parseCompiled at h
+  split at h
+  · cases h
+  · cases hps : parseSteps c.cu c.steps l (bucket0 .duration) with
+    | error e => rw [hps] at h; cases h
+    | ok o =>
+      rw [hps] at h
+      cases o with
+      | none => cases h
+      | some q =>
+        obtain ⟨b, rest⟩ := q
+        dsimp only at h
+        unfold bucketValue at h
+        dsimp only at h
+        cases hv : durationValue b with
+        | error e => rw [hv] at h; cases h
+        | ok ov =>
+          rw [hv] at h
+          cases ov with
+          | none => cases h
+          | some w =>
+            obtain ⟨fd, n⟩ := w
+            simp only [mapR, Option.map] at h
+            split at h
+            · injection h with h; injection h with h
+              exact ⟨fd, n, h.symm, durationValue_valid b fd n hv⟩
+            · cases h
+
+theorem duration_success_valid (cu : Culture) (ptext : Text) (p : Pat) (hp : compileDuration cu ptext = .ok p) (l : Text)
+    (v : List Int) (h : parsePat .duration l p = .ok (some v)) :
+    ∃ fd n, v = [fd, n] ∧ -1073741824 ≤ fd ∧ fd ≤ 1073741823 ∧ 0 ≤ n ∧ n < 86400000000000 := by
+  have : ∃ c, p = .stepped c := by
+    unfold compileDuration at hp
+    have key : ∀ cu' t, steppedOf (compileCustom .duration cu' t) = .ok p → ∃ c, p = .stepped c := by
+      intro cu' t hh
+      unfold steppedOf at hh
+      cases hc : compileCustom .duration cu' t with
+      | error e => rw [hc] at hh; cases hh
+      | ok c => rw [hc] at hh; injection hh with hh; exact ⟨c, hh.symm⟩
+    split at hp
+    · cases hp
+    · repeat' (first | exact key _ _ hp | cases hp | split at hp)
+    · exact key _ _ hp
+  obtain ⟨c, rfl⟩ := this
+  simp only [parsePat] at h
+  exact parseCompiled_duration_valid c l v h
 
 /-- **parse_total** for LocalDate and LocalDateTime pattern objects without a calendar field (`patOK`): for every
     text a success or a failure result, never an exception (era and text fields included) -/
